@@ -419,10 +419,12 @@ class Gen:
 
     def enum(self):
         rng = self.rng
-        flavour = rng.choice(["Enum", "Enum", "IntEnum", "StrMixin", "IntMixin", "StrEnum"])
+        flavour = rng.choice(["Enum", "Enum", "IntEnum", "StrMixin", "IntMixin", "StrEnum", "Flag", "IntFlag"])
         name = self.prog.fresh("E")
         n = rng.randrange(1, 5)
-        if flavour in ("IntEnum", "IntMixin"):
+        if flavour in ("Flag", "IntFlag"):
+            vals = rng.sample([1, 2, 4, 8, 2**20], n)  # combined members (a | b) and the empty flag are valid values without a name of their own
+        elif flavour in ("IntEnum", "IntMixin"):
             vals = rng.sample([0, 1, 2, 3, -1, 100, 2**40], n)
         elif flavour in ("StrMixin", "StrEnum"):
             vals = rng.sample(ENUM_STR_VALUES, n)
@@ -435,7 +437,7 @@ class Gen:
                     uniq.append(v)
             vals = uniq
         base = {"Enum": "enum.Enum", "IntEnum": "enum.IntEnum", "StrMixin": "str, enum.Enum", "IntMixin": "int, enum.Enum",
-                "StrEnum": "enum.StrEnum"}[flavour]
+                "StrEnum": "enum.StrEnum", "Flag": "enum.Flag", "IntFlag": "enum.IntFlag"}[flavour]
         if flavour in ("Enum", "StrMixin", "StrEnum") and len(vals) >= 2 and rng.random() < 0.3:
             # string values that are the NAMES of other members (a state machine's "next state"), and Enum attribute names
             k = rng.randrange(1, len(vals) + 1)
@@ -963,7 +965,13 @@ class ValueGen:
         if k == "literal":
             return rng.choice(spec.info["members"])
         if k == "enum":
-            return rng.choice(list(spec.t))
+            members = list(spec.t)
+            if spec.info["flavour"] in ("Flag", "IntFlag") and rng.random() < 0.5:
+                v = spec.t(0)
+                for m in rng.sample(members, rng.randrange(0, len(members) + 1)):
+                    v = v | m
+                return v
+            return rng.choice(members)
         if k == "coll":
             n = 0 if budget <= 0 else rng.choice([0, 1, 1, 2, 2, 3, self.max_len])
             if budget == self.budget and spec.kids[0].peel().kind in ("scalar", "enum", "literal") and rng.random() < 0.04:
